@@ -18,8 +18,11 @@ EXPLANATION = (
     "the branch are replaced in place (rows before / new rows / rows after) and global_comp_index is "
     "renumbered densely. R-C13-reinit: the compartment-structure attributes read by the morphology "
     "initialisers are stored before base._initialize(), which is followed by _init_view() and "
-    "_update_local_indices(); the per-branch count is updated at the branch's own index. The claim "
-    "'indistinguishable in simulation' reduces to C01 (layout rule) and is not decided here."
+    "_update_local_indices(); the per-branch count is updated at the branch's own index. R-C13-layout / "
+    "R-C13-ends (shared with C01): what the re-initialisation rebuilds -- the padded solver layout and the "
+    "branch-point edge table -- addresses every compartment of every branch for UNEQUAL per-branch counts, "
+    "which only set_ncomp produces. R-C13-iter: branches are handed out lazily, so set_ncomp inside a loop "
+    "over branches sees current rows. The numerical claim 'indistinguishable in simulation' is not decided."
 )
 ASSUMPTIONS = ["single-branch views (documented use of set_ncomp)", "pandas concat/drop/iloc semantics"]
 
